@@ -160,7 +160,7 @@ class FakeNet:
 
 # ------------------------------------------------------------------------------------------------- world
 
-THIRD_PARTY = ['p2pkh', 'p2sh', 'claim-foreign', 'support-foreign', 'purchase', 'op_return0', 'op_return1', 'op_return2',
+THIRD_PARTY = ['p2pkh', 'p2sh', 'claim-foreign', 'channel-foreign', 'support-foreign', 'purchase', 'op_return0', 'op_return1', 'op_return2',
                'multisig', 'witness0', 'witness1', 'empty', 'random', 'truncated-pushdata2', 'truncated-pushdata4']
 
 
@@ -248,6 +248,13 @@ class World:
             return Output.pay_script_hash(amt, h20)
         if kind == 'claim-foreign':
             return Output.pay_claim_name_pubkey_hash(amt, 'foreign', Claim(), h20)
+        if kind == 'channel-foreign':
+            # somebody else's channel, with whatever they chose to put where the public key belongs
+            c = Claim()
+            c.channel.title = 'theirs'
+            c.channel.public_key_bytes = rng.choice([b'', bytes(rng.getrandbits(8) for _ in range(rng.choice([5, 32, 33, 88, 91]))),
+                                                     b'\x30\x03\x02\x01\x01'])
+            return Output.pay_claim_name_pubkey_hash(amt, '@foreign', c, h20)
         if kind == 'support-foreign':
             return Output.pay_support_pubkey_hash(amt, 'foreign', 'ab' * 20, h20)
         if kind == 'purchase':
@@ -272,9 +279,22 @@ class World:
         if kind == 'pay':
             return Output.pay_pubkey_hash(amount, ph), addr
         if kind == 'claim':
+            from lbry.wallet.script import OutputScript
+            v = self.rng.choice(['stream', 'stream', 'channel', 'undecodable', 'empty', 'update'])
             c = Claim()
-            c.stream.title = 'x'
-            return Output.pay_claim_name_pubkey_hash(amount, 'mine', c, ph), addr
+            if v == 'channel':
+                c.channel.title = 'c'
+                c.channel.public_key_bytes = self.rng.choice([b'', b'\x02' + bytes(self.rng.getrandbits(8) for _ in range(32)),
+                                                              bytes(self.rng.getrandbits(8) for _ in range(88))])
+            else:
+                c.stream.title = 'x'
+            if v in ('stream', 'channel'):
+                return Output.pay_claim_name_pubkey_hash(amount, 'mine', c, ph), addr
+            if v == 'update':
+                return Output.pay_update_claim_pubkey_hash(amount, 'mine', 'ab' * 20, c, ph), addr
+            # value locked under a claim name whose payload is not a claim this release can decode: locked all the same
+            payload = b'' if v == 'empty' else bytes(self.rng.getrandbits(8) | 0x80 for _ in range(self.rng.randrange(1, 40)))
+            return Output(amount, OutputScript.pay_claim_name_pubkey_hash(b'mine', payload, ph)), addr
         return Output.pay_support_pubkey_hash(amount, 'mine', 'ef' * 20, ph), addr
 
     def pick_target(self):
